@@ -367,3 +367,72 @@ def constant_name_lookups(ctx: Context, rule: str, members: Iterable[str]) -> No
                                 tested = True
                 ctx.check(rule, tested, f"{member}: a variable expected under a fixed name is looked up only after `name in dataset.variables` (dataset[name] alone also answers for a bare dimension)", fi, n,
                           construct=f"{fi.short}: {norm_text(n)} {'after a membership test' if tested else 'without a membership test'}")
+
+
+# --------------------------------------------------------------------------- bounds variables are not coordinates
+
+def bounds_names_helper(ctx: Context, rule: str) -> None:
+    """utils.bounds_variable_names(dataset) is the set of `bounds` attribute values over all variables of the dataset."""
+    fi = ctx.func('emsarray.utils.bounds_variable_names')
+    flow = ctx.flow(fi)
+    ok = False
+    why = '?'
+    rets = fi.returns()
+    if len(rets) == 1:
+        v = flow.resolve(rets[0].value)
+        why = norm_text(v)[:140]
+        if isinstance(v, ast.Call) and isinstance(v.func, ast.Name) and v.func.id in ('set', 'frozenset') and len(v.args) == 1:
+            v = flow.resolve(v.args[0])
+        if isinstance(v, (ast.SetComp, ast.GeneratorExp, ast.ListComp)) and len(v.generators) == 1:
+            g = v.generators[0]
+            it = norm_text(flow.resolve(g.iter))
+            var = g.target.id if isinstance(g.target, ast.Name) else None
+            elt = norm_text(v.elt)
+            ifs = [norm_text(i) for i in g.ifs]
+            ok = it in (f"{fi.params[0]}.variables.values()",) and var is not None \
+                and elt in (f"{var}.attrs['bounds']", f"{var}.attrs.get('bounds')") \
+                and ifs in ([f"'bounds' in {var}.attrs"], [f"{var}.attrs.get('bounds') is not None"])
+    ctx.check(rule, ok, "bounds_variable_names lists the `bounds` attribute of every variable of the dataset (coordinates and plain variables alike) that has one", fi,
+              rets[0] if rets else fi.node, construct=f"returns {why}")
+
+
+def bounds_excluded(ctx: Context, rule: str, qualname: str, what: str) -> None:
+    """The scan over the dataset's variables in `qualname` never selects a variable that another variable names as its bounds:
+    a bounds variable may repeat its coordinate's units / standard_name / axis / positive (CF 7.1), xarray decodes time bounds
+    with the coordinate's units, and data variables are listed before coordinates."""
+    fi = ctx.func(qualname)
+    flow = ctx.flow(fi)
+    helper = [n for n in walk_no_nested(fi.node) if isinstance(n, ast.Assign) and isinstance(n.value, ast.Call)
+              and callee(ctx, fi, n.value) == 'emsarray.utils.bounds_variable_names' and len(n.value.args) == 1
+              and norm_text(n.value.args[0]) == 'self.dataset' and isinstance(n.targets[0], ast.Name)]
+    ok, why = False, 'no call to utils.bounds_variable_names(self.dataset)'
+    if len(helper) == 1:
+        b = helper[0].targets[0].id
+        why = f"{b} is never tested against the scanned name"
+        # comprehension form
+        for comp in ast.walk(fi.node):
+            if isinstance(comp, (ast.GeneratorExp, ast.ListComp)) and len(comp.generators) == 1:
+                g = comp.generators[0]
+                it = norm_text(flow.resolve(g.iter))
+                if it not in ('self.dataset.variables.items()', 'self.dataset.variables', 'self.dataset.variables.keys()'):
+                    continue
+                name = g.target.elts[0] if isinstance(g.target, ast.Tuple) else g.target
+                conj = []
+                for i in g.ifs:
+                    conj.extend(i.values if isinstance(i, ast.BoolOp) and isinstance(i.op, ast.And) else [i])
+                if isinstance(name, ast.Name) and any(norm_text(c) == f"{name.id} not in {b}" for c in conj):
+                    ok, why = True, f"comprehension filter `{name.id} not in {b}`"
+        # loop form: `if name in b: continue` before anything is selected
+        for lp in walk_no_nested(fi.node):
+            if isinstance(lp, ast.For) and norm_text(flow.resolve(lp.iter)) in ('self.dataset.variables.items()', 'self.dataset.variables', 'self.dataset.variables.keys()'):
+                name = lp.target.elts[0] if isinstance(lp.target, ast.Tuple) else lp.target
+                if not isinstance(name, ast.Name):
+                    continue
+                for i, st in enumerate(lp.body):
+                    if isinstance(st, ast.If) and norm_text(st.test) == f"{name.id} in {b}" and any(isinstance(x, ast.Continue) for x in st.body) and not st.orelse:
+                        earlier = [x for s_ in lp.body[:i] for x in ast.walk(s_) if isinstance(x, (ast.Return, ast.Yield)) or
+                                   (isinstance(x, ast.Call) and isinstance(x.func, ast.Attribute) and x.func.attr in ('append', 'add'))]
+                        if not earlier:
+                            ok, why = True, f"loop skips `{name.id} in {b}` first"
+    ctx.check(rule, ok, f"{what}: a variable that another variable names in its `bounds` attribute is never selected, whatever attributes or encoding it carries", fi,
+              helper[0] if helper else fi.node, construct=why)
